@@ -53,7 +53,7 @@ class GenModel:
             if a[0] == 'it' and b[0] == 'it' and isinstance(lam, tuple) and lam[0] == 'lambda':
                 acc = init
                 for x in a[1][a[2]:b[2]]:
-                    acc = it.call(lam[1], [acc, x])
+                    acc = it.call_lambda(lam, [acc, x])
                 return acc
             raise OutOfFragment('std::accumulate form')
         if cs.startswith('std::basic_string_view::') or cs.startswith('std::basic_string::') or cs.startswith('std::__cxx11::basic_string::'):
